@@ -86,6 +86,10 @@ func (g *Gen) resolveType(env *Env, text string) types.Type {
 	if text == "ref" {
 		return types.Typ[types.UnsafePointer]
 	}
+	if strings.HasPrefix(text, "ptr_") {
+		// ptr_T is *T where a type has to be written as a plain identifier (second argument of unbox/dyntype)
+		return types.NewPointer(g.resolveType(env, text[4:]))
+	}
 	if text == "any" {
 		return types.NewInterfaceType(nil, nil)
 	}
@@ -325,6 +329,12 @@ func (g *Gen) selField(v Val, name string, env *Env) Val {
 			return g.envLoad(env, Ptr{Prefix: p.Prefix + ".ghost:" + name, Idx: p.Idx, T: gt})
 		}
 		panic(contractErr("no field %s in %s", name, pt.Elem()))
+	}
+	if v.K == kScalar && isRefLike(t) {
+		// ghost field of a reference-like value that is not a struct pointer (an interface value, a map, ...)
+		if gt, ok := g.ghostFieldType(env, t, name); ok {
+			return g.envLoad(env, Ptr{Prefix: g.typeName(t) + ".ghost:" + name, Idx: []string{v.S}, T: gt})
+		}
 	}
 	if st, ok := t.Underlying().(*types.Struct); ok && v.K == kStruct {
 		for i := 0; i < st.NumFields(); i++ {
